@@ -253,6 +253,44 @@ def rule_V2(ctx, rid='V2'):
                        '`%s` does not rebuild log_v_all from the log_v of every member in order'
                        % unparse(st)[:60])
 
+    # an element store into log_v_all keeps the array's dtype: if the array can have been created
+    # from Python ints (a member's log_v returning the literal 0), a float is truncated
+    stores = []
+    for m in fU.methods.values():
+        for st in walk_no_nested(m.node):
+            tg = st.targets[0] if isinstance(st, ast.Assign) and len(st.targets) == 1 else (
+                st.target if isinstance(st, ast.AugAssign) else None)
+            if isinstance(tg, ast.Subscript) and isinstance(tg.value, ast.Attribute) and \
+                    tg.value.attr == 'log_v_all':
+                stores.append((m, st))
+    if stores:
+        int_getters = []
+        for f in prog.functions.values():
+            if f.name == 'log_v' and f.cls is not None:
+                for r in _returns(f):
+                    if isinstance(r.value, ast.Constant) and isinstance(r.value.value, int) and \
+                            not isinstance(r.value.value, bool):
+                        int_getters.append(f.qualname)
+        creations = []
+        for m in fU.methods.values():
+            for st in walk_no_nested(m.node):
+                if isinstance(st, ast.Assign) and len(st.targets) == 1 and \
+                        isinstance(st.targets[0], ast.Attribute) and \
+                        st.targets[0].attr == 'log_v_all' and isinstance(st.value, ast.Call) and \
+                        dotted(st.value.func) in ('np.array', 'np.asarray'):
+                    typed = any(k.arg == 'dtype' and unparse(k.value) in (
+                        'float', 'np.float64', 'np.double') for k in st.value.keywords)
+                    creations.append((m, st, typed))
+        untyped = [c for c in creations if not c[2]]
+        for m, st in stores:
+            ok = not (int_getters and untyped)
+            n += 1
+            ctx.ob(rid, '%s:element-store-keeps-float(log_v_all)' % m.qualname, ok, m.where(st),
+                   'log_v_all is a float array wherever an element is stored into it' if ok else
+                   '`%s` stores into an array that `%s` may have created with an INTEGER dtype '
+                   '(%s returns the int 0): the stored log-volume is truncated to an integer, so '
+                   'the member is over-proposed and the union\'s volume is wrong' % (
+                       unparse(st)[:50], unparse(untyped[0][1])[:50], ', '.join(int_getters)))
     # ---------------- V2b
     f = prog.func('Ellipsoid.log_v')
     tr = prog.func('Ellipsoid.transform')
@@ -588,3 +626,47 @@ def _is_row_norm(den, numer):
         ax = [k.value for k in e.keywords if k.arg == 'axis']
         return bool(ax) and unparse(ax[0]) in ('1', '-1')
     return False
+
+
+def rule_V3(ctx, rid='V3'):
+    ctx.rule(rid, 'enclosure of all construction points: Ellipsoid.compute hands the enclosing-'
+             'ellipsoid routine the very array it was given (no selection, subsampling or '
+             'helper in between), and Union.compute builds its first member from all points')
+    prog = ctx.program
+    n = 0
+    for q, callee_attr, what in (('Ellipsoid.compute', 'minimum_volume_enclosing_ellipsoid',
+                                  'the enclosing-ellipsoid routine'),
+                                 ('Union.compute', 'compute', 'the first member')):
+        f = prog.func(q)
+        cfg = cfg_of(f)
+        pts = [p for p in f.params if p not in ('cls', f.self_name)][0]
+        calls = [c for c in walk_no_nested(f.node) if isinstance(c, ast.Call) and (
+            (isinstance(c.func, ast.Name) and c.func.id == callee_attr) or
+            (isinstance(c.func, ast.Attribute) and c.func.attr == callee_attr and
+             isinstance(c.func.value, ast.Name) and c.func.value.id in f.params)) and c.args and
+            cfg.has(c)]
+        if not calls:
+            ctx.note('%s not decided for %s: call of %s not found' % (rid, q, callee_attr))
+            continue
+        for c in calls:
+            a = c.args[0]
+            ok = isinstance(a, ast.Name) and a.id == pts and \
+                cfg.defs_at(cfg.node_of(c).id, pts) == frozenset([cfg.entry.id])
+            if not ok and isinstance(a, ast.Name):
+                # an alias made by np.asarray / np.atleast_2d of the parameter is the same set
+                ds = cfg.defs_at(cfg.node_of(c).id, a.id)
+                if len(ds) == 1 and next(iter(ds)) != cfg.entry.id:
+                    dn = cfg.nodes[next(iter(ds))]
+                    v = dn.ast.value if isinstance(dn.ast, ast.Assign) else None
+                    if isinstance(v, ast.Call) and dotted(v.func) in (
+                            'np.asarray', 'np.atleast_2d', 'np.array', 'np.copy',
+                            'np.ascontiguousarray') and v.args and \
+                            isinstance(v.args[0], ast.Name) and v.args[0].id == pts:
+                        ok = True
+            n += 1
+            ctx.ob(rid, '%s:all-points-enclosed' % q, ok, f.where(c),
+                   '%s receives the construction points themselves' % what if ok else
+                   '%s receives `%s`, not the construction points themselves: points left out '
+                   'are not guaranteed to lie inside the bound built "around" them'
+                   % (what, unparse(a)[:50]))
+    return n
